@@ -1,6 +1,7 @@
 import D3.Model.IntersectJolt
 import D3.Model.IntersectMpr
 import D3.Model.IntersectLibccd
+import D3.Model.SimplexGood
 import D3.Driver.Codec
 import D3.Driver.VecCodec
 
@@ -53,6 +54,26 @@ def joltRunFn : P String := do
   match IsectJolt.gjkIntersectionJolt (traceSup tr) (fun _ => ⟨0, 0, 0⟩) tol fuel with
   | .ok (b, its, br) => pure s!"ok {b2n b} {its} {br}"
   | .error e => pure (rErrS e)
+
+/-- run-time evidence for the hypothesis `VisitedGood JoltGood` of the `C02.jolt_fn_*` / `jolt_reach_*`
+theorems (D3/Properties/C02Link.lean): `C02.jolt.good p q Y(4 pts) n dir` →
+`ok 2` if the call leaves through the separating-axis test (the solver is not called), otherwise
+`ok 1` / `ok 0` = `joltGoodB` (the executable form of `JoltGood`, `D3.Gjk.joltGoodB_iff`) of the simplex that
+call hands to `get_closest_point_to_origin`: rows `Y` with `p - q` written to row `n`, `n + 1` points.
+Meant to be run at `Rat` on the recorded `_intersection_loop` calls of a run. -/
+def joltGoodFn : P String := do
+  let p : V3 α ← pV3; let q ← pV3
+  let ys : List (V3 α) ← pMany 4 pV3
+  let n ← pNat
+  let dir ← pV3
+  let w := p - q
+  if V3.dot dir w < -IsectJolt.EPS then pure "ok 2" else
+  match ys with
+  | [a, b, c, d] =>
+    match (⟨a, b, c, d⟩ : GjkJolt.A4 (V3 α)).set n w with
+    | .ok Y1 => pure (if GjkJolt.joltGoodB Y1 (n + 1) then "ok 1" else "ok 0")
+    | .error e => pure (rErrS e)
+  | _ => pure (rErrS .indexOOB)
 
 /-! ### MPR -/
 
@@ -155,6 +176,7 @@ def dispatch (fn : String) : Option (P String) :=
   match fn with
   | "C02.jolt.step" => some (joltStepFn (α := α))
   | "C02.jolt.run" => some (joltRunFn (α := α))
+  | "C02.jolt.good" => some (joltGoodFn (α := α))
   | "C02.mpr.iterate" => some (mprIterateFn (α := α))
   | "C02.mpr.searchdir" => some (mprSearchDirFn (α := α))
   | "C02.mpr.expand" => some (mprExpandFn (α := α))
